@@ -1659,8 +1659,10 @@ func (l *lexer) read() (rune, error) {
 		switch {
 		case err == io.EOF:
 			l.eof = true
-		case l.err == nil:
-			l.err = err
+		default:
+			if _, ok := l.err.(Error); ok || l.err == nil {
+				l.err = err
+			}
 		}
 		l.mu.Unlock()
 	case r == '\n':
@@ -1708,8 +1710,15 @@ func (l *lexer) error(pos ast.Pos, msg string) {
 	l.mu.Lock()
 	defer l.mu.Unlock()
 
-	if l.err != nil && strings.Contains(msg, ": unexpected EOF") {
-		return // lexing was interrupted
+	if l.err != nil {
+		switch e, ok := l.err.(Error); {
+		case !ok:
+			return // a read error is never replaced
+		case strings.Contains(msg, ": unexpected EOF"):
+			return // lexing was interrupted
+		case !pos.Before(e.Pos):
+			return // the first error in the source is reported
+		}
 	}
 	l.err = Error{
 		Name: l.name,
